@@ -39,7 +39,23 @@ FindLit(w, lit, i) == IF i + Len(lit) > Len(w) THEN <<-1, -1>>
 RECURSIVE FindClass(_, _, _)
 FindClass(w, set, i) == IF i >= Len(w) THEN <<-1, -1>>
                         ELSE IF w[i + 1] \in set THEN <<i, i + 1>> ELSE FindClass(w, set, i + 1)
-NextSep(w, sep, from) == IF sep.t = "str" THEN FindLit(w, sep.lit, from) ELSE FindClass(w, sep.set, from)
+(* regular expressions that look at what precedes the match, searched with rx.search(chars, pos): the       *)
+(* assertion sees the real text before `from` (within the same character node)                               *)
+(*   [t |-> "notafter", lit, c]   (?<!c)lit : lit not preceded by character c                                *)
+(*   [t |-> "bosalt", lit, alt]   ^lit|alt  : lit only at the very start of the node's text, or alt anywhere  *)
+RECURSIVE FindNotAfter(_, _, _, _)
+FindNotAfter(w, lit, c, i) == IF i + Len(lit) > Len(w) THEN <<-1, -1>>
+                              ELSE IF (\A k \in 1..Len(lit) : w[i + k] = lit[k]) /\ (i = 0 \/ w[i] # c) THEN <<i, i + Len(lit)>>
+                              ELSE FindNotAfter(w, lit, c, i + 1)
+RECURSIVE FindBosAlt(_, _, _, _)
+FindBosAlt(w, lit, alt, i) == IF i >= Len(w) THEN <<-1, -1>>
+                              ELSE IF i = 0 /\ Len(lit) <= Len(w) /\ (\A k \in 1..Len(lit) : w[k] = lit[k]) THEN <<0, Len(lit)>>
+                              ELSE IF w[i + 1] = alt THEN <<i, i + 1>>
+                              ELSE FindBosAlt(w, lit, alt, i + 1)
+NextSep(w, sep, from) == CASE sep.t = "str" -> FindLit(w, sep.lit, from)
+                           [] sep.t = "class" -> FindClass(w, sep.set, from)
+                           [] sep.t = "notafter" -> FindNotAfter(w, sep.lit, sep.c, from)
+                           [] sep.t = "bosalt" -> FindBosAlt(w, sep.lit, sep.alt, from)
 
 CharsNode(txt, n, a, b) == [k |-> "chars", txt |-> txt, pos |-> n.pos + a, end |-> n.pos + b]
 Part(nodes, pe) == [nodes |-> nodes, pos_end |-> pe]
